@@ -84,6 +84,14 @@ impl<'ast> Visit<'ast> for BodyVisitor {
         self.loop_stack.pop();
     }
     fn visit_expr_for_loop(&mut self, e: &'ast syn::ExprForLoop) {
+        let mut cf = CtrlFinder { found: false };
+        cf.visit_block(&e.body);
+        self.nodes.push(json!({
+            "kind": "for_parts", "ord": self.loop_ord, "range": rng(e.span()), "pat": rng(e.pat.span()),
+            "expr": rng(e.expr.span()), "body": rng(e.body.span()), "body_has_ctrl": cf.found,
+            "pat_is_ident": matches!(&*e.pat, syn::Pat::Ident(_)), "expr_is_ident": matches!(&*e.expr, syn::Expr::Path(_)),
+            "in_closure": self.closure_depth > 0,
+        }));
         let ord = self.enter_loop("for", e.span(), &e.body, &e.label);
         self.loop_stack.push(ord);
         visit::visit_expr_for_loop(self, e);
